@@ -126,18 +126,30 @@ func c08(e *Env) {
 		ob2.Unknown("-", "(*OutPort).Send not found")
 	} else {
 		n := 0
+		inTree := map[*ssa.Function]bool{}
+		for _, c := range g.Ctxs {
+			inTree[c.Fn] = true
+		}
 		for _, c := range p.Callers(send) {
-			if c.Pkg == nil || c.Pkg.Pkg.Path() != core.ModPath {
-				root := c
-				for root.Parent() != nil {
-					root = root.Parent()
-				}
-				if root.Pkg == nil || root.Pkg.Pkg.Path() != core.ModPath {
-					continue
-				}
+			root := c
+			for root.Parent() != nil {
+				root = root.Parent()
+			}
+			if root.Pkg == nil || root.Pkg.Pkg.Path() != core.ModPath {
+				continue
 			}
 			n++
-			ob2.Check(c == a.procRun, e.where(c.Blocks[0].Instrs[0]), "called from "+core.FuncName(c), "OutPort.Send is also called from "+core.FuncName(c)+": a second sender can interleave with the ordered forwarding of Process.Run")
+			okC := c == a.procRun
+			if !okC && inTree[c] {
+				// a helper of Process.Run: every caller of the helper must itself lie in Process.Run's call tree
+				okC = true
+				for _, cc := range p.Callers(c) {
+					if p.IsLib(cc) && !inTree[cc] && cc.Synthetic == "" {
+						okC = false
+					}
+				}
+			}
+			ob2.Check(okC, e.where(c.Blocks[0].Instrs[0]), "called from "+core.FuncName(c)+" (Process.Run's call tree)", "OutPort.Send is also called from "+core.FuncName(c)+", outside Process.Run's call tree: a second sender can interleave with the ordered forwarding")
 		}
 		if n == 0 {
 			ob2.Unknown("-", "no caller of OutPort.Send in package scipipe")
@@ -160,17 +172,14 @@ func c08(e *Env) {
 	res := g.Run(core.Scenario{Start: g.Entry, FieldLoad: e.assumeStream(false)})
 	nS := 0
 	for _, n := range g.Nodes {
-		if n.Ctx != g.Root {
-			continue
-		}
-		if _, ok := isPortSend(n); !ok {
+		if _, ok := isPortSend(n); !ok || n.Kind == core.KAfter {
 			continue
 		}
 		if res.Reaches(func(m *core.Node) bool { return m == n }) == nil {
 			continue // only for streaming outputs
 		}
 		nS++
-		ip := sy.InCtx(g.Root, n.Call.Args[1]).String()
+		ip := e.xargSym(n, 1).String()
 		ob2c.Check(strings.Contains(ip, "[0].OutIPs"), g.Where(n), "forwards "+trunc(ip, 120), "a non-streaming output that is not the queue head's is sent: "+trunc(ip, 200)+" (it overtakes the outputs of earlier tasks still running)")
 	}
 	if nS == 0 {
